@@ -346,10 +346,6 @@ impl Lowerer<'_> {
 
             let arm_lbl = arm_labels[arm_index];
 
-            // Even if we "forget" to drop the values, we still need to pop
-            // them from the stack.
-            let to_drop = self.stack_slots.pop().unwrap();
-
             if let Some(guard) = &arm.guard {
                 // The temporaries of the guard get their own frame and are
                 // dropped as soon as the guard has been evaluated. In the
@@ -370,6 +366,13 @@ impl Lowerer<'_> {
                     self.emit_drop(Place::new(var, ty), ty);
                 }
 
+                // The bindings of the pattern stay on the stack while the
+                // guard is lowered, because the guard can leave the function
+                // early (with `return` or `?`), in which case they must be
+                // dropped. Even if we "forget" to drop the values below, we
+                // still need to pop them from the stack.
+                let to_drop = self.stack_slots.pop().unwrap();
+
                 let ident = Identifier::from(format!("guard_{}_drop", i));
                 let intermediate_lbl =
                     self.label_store.wrap_internal(lbl, ident);
@@ -388,6 +391,9 @@ impl Lowerer<'_> {
 
                 self.emit_jump(next_lbl);
             } else {
+                // Even if we "forget" to drop the values, we still need to
+                // pop them from the stack.
+                let _ = self.stack_slots.pop().unwrap();
                 self.emit_jump(arm_lbl);
             }
         }
